@@ -388,13 +388,17 @@ func (gen *Generator) GenerateShortCircuit(or bool, args []Sexp) error {
 	subgen.scopes = gen.scopes
 	subgen.Tail = gen.Tail
 	subgen.funcname = gen.funcname
-	subgen.Generate(args[size-1])
+	if err := subgen.Generate(args[size-1]); err != nil {
+		return err
+	}
 	instructions := subgen.instructions
 
 	for i := size - 2; i >= 0; i-- {
 		subgen = gen.NewSubGenerator()
 		subgen.scopes = gen.scopes
-		subgen.Generate(args[i])
+		if err := subgen.Generate(args[i]); err != nil {
+			return err
+		}
 		subgen.AddInstruction(DupInstr(0))
 		subgen.AddInstruction(BranchInstr{or, len(instructions) + 2})
 		subgen.AddInstruction(PopInstr(0))
@@ -695,7 +699,9 @@ func (gen *Generator) GenerateBuilder(fun Sexp, args []Sexp) error {
 	for i := 0; i < n; i++ {
 		gen.AddInstruction(PushInstr{args[i]})
 	}
-	gen.Generate(fun)
+	if err := gen.Generate(fun); err != nil {
+		return err
+	}
 	gen.AddInstruction(DispatchInstr{len(args)})
 	return nil
 }
@@ -1234,10 +1240,11 @@ func (gen *Generator) generateSyntaxQuoteList(arg Sexp) error {
 		if issymbol {
 			if sym.name == "unquote" {
 				//VPrintf("detected unquote with quotebody[1]='%#v'   arg='%#v'\n", quotebody[1], arg)
-				gen.Generate(quotebody[1])
-				return nil
+				return gen.Generate(quotebody[1])
 			} else if sym.name == "unquote-splicing" {
-				gen.Generate(quotebody[1])
+				if err := gen.Generate(quotebody[1]); err != nil {
+					return err
+				}
 				gen.AddInstruction(ExplodeInstr(0))
 				return nil
 			}
